@@ -191,8 +191,10 @@ func (g *ExecutionGraph) setupRetry() error {
 	for len(frontier) > 0 {
 		var next []int
 		for _, u := range frontier {
+			// A node recorded as running belongs to a run whose process died
+			// before the node finished: it is unfinished as well.
 			if retry[u] || dict[u] == NodeStatusError ||
-				dict[u] == NodeStatusCancel {
+				dict[u] == NodeStatusCancel || dict[u] == NodeStatusRunning {
 				g.logger.Info("clear node state", "step", g.dict[u].data.Step.Name)
 				g.dict[u].clearState()
 				retry[u] = true
